@@ -15,7 +15,7 @@ def run(ctx):
     out = ctx.harness(binary, ["-plans", pdir, "-out", ctx.path("seq.ndjson"), "-conc", ctx.path("conc.ndjson"),
                          "-seed", ctx.seed, "-hist", ctx.q(200, 4000), "-nconc", ctx.q(60, 1500),
                          "-nwide", ctx.q(40, 800), "-maxops", ctx.q(80, 200),
-                         "-nrace", ctx.q(100000, 1500000), "-nracekeep", ctx.q(5000, 60000)],
+                         "-nrace", ctx.q(100000, 1500000), "-nracekeep", ctx.q(5000, 60000), "-nbulk", ctx.q(150, 3000)],
                 traces=[ctx.path("seq.ndjson"), ctx.path("conc.ndjson")])
     # 4. validate what the real code did
     seq = ctx.load_traces(ctx.path("seq.ndjson"))
